@@ -23,7 +23,9 @@ def generate(rnd, tier):
         cm = rnd.random() < 0.5
         kp = rnd.choice([None, ["", ") ", 1], ["", ") ", 1], ["", ") ", rnd.choice([0, 5, 95, -2])], ["[", "] ", 1]])
         texts = [" ".join(rnd.choice(WORDS) for _ in range(rnd.randint(1, 4))).strip() if rnd.random() < 0.9 else "" for _ in range(n)]
-        cases.append({"op": "tree", "_tag": "flat", "tree": ["list", cm, k, None, sp, kp, [["text", t] for t in texts]], "ops": [["render", w]]})
+        ops = [["render", w]]
+        if rnd.random() < 0.3: ops = [["render", rnd.choice([1, 2, 3, w])]] + ops        # the same object first rendered at a width that may be refused
+        cases.append({"op": "tree", "_tag": "flat", "tree": ["list", cm, k, None, sp, kp, [["text", t] for t in texts]], "ops": ops})
     for _ in range(N // 2):
         cases.append({"op": "tree", "_tag": "nested", "tree": gen_tree(rnd, rnd.choice([1, 2, 3]), lists_only=True), "ops": [["render", rnd.choice([1, 2, 3, 5, 8, 10, 13, 20, 21, 40, 80])]]})
     return [with_cc(c) for c in cases]
@@ -48,9 +50,9 @@ def monitor(case, obs):
     if case.get("_tag") != "flat":
         # nested / forced-width containers: items never overlap => every non-blank character of every item's own rendering and of every label is shown:
         # the multiset of non-blank characters of the container equals the sum over its items (rendered at the width the container gives them) and labels
-        t = case["tree"]; o = obs[0]
+        t = case["tree"]; o = obs[-1]
         if t[0] != "list" or "err" in o or t[2] == 0: return None
-        _, cm, k, cwf, sp, kp, items = t; w = case["ops"][0][1]
+        _, cm, k, cwf, sp, kp, items = t; w = case["ops"][-1][1]
         used = cwf if cwf is not None else int((w - (k - 1) * sp) / k)
         import collections
         exp = collections.Counter()
@@ -66,8 +68,8 @@ def monitor(case, obs):
             miss = exp - got
             return "items overlap or are lost: %d non-blank characters of the items/labels are not shown (e.g. %r); lines %r" % (sum(miss.values()), list(miss)[:5], o["lines"][:4])
         return None
-    _, cm, k, _cw, sp, kp, items = case["tree"]; w = case["ops"][0][1]; n = len(items)
-    o = obs[0]
+    _, cm, k, _cw, sp, kp, items = case["tree"]; w = case["ops"][-1][1]; n = len(items)
+    o = obs[-1]          # the last render (an earlier render of the same object, possibly refused, must not matter)
     texts = [it[1] for it in items]
     labels = [(kp[0] + str(i + kp[2]) + kp[1]) if kp else "" for i in range(n)]
     cw = int((w - (k - 1) * sp) / k)
@@ -108,8 +110,8 @@ def monitor(case, obs):
     return None
 
 
-def nontrivial(case, obs): return "err" in obs[0] or (case["tree"][0] == "list" and len(case["tree"][6]) >= 2)
-def outcome(case, obs): return case.get("_tag", "?") + ("/refused" if "err" in obs[0] else "/drawn")
+def nontrivial(case, obs): return "err" in obs[-1] or (case["tree"][0] == "list" and len(case["tree"][6]) >= 2)
+def outcome(case, obs): return case.get("_tag", "?") + ("/refused" if "err" in obs[-1] else "/drawn") + ("/after-refusal" if len(obs) > 1 and "err" in obs[0] else "")
 
 
 def shrink(case):
